@@ -7,7 +7,7 @@ S=/tmp/vscratch/repo
 mkdir -p /tmp/vscratch
 rsync -a --delete --exclude target --exclude .git /repo/ $S/
 if [ "$1" = "--patch" ]; then
-  (cd $S && patch -p1 -s < "$2") || { echo "PATCH FAILED"; exit 3; }
+  (cd $S && patch -p1 -s < "$(cd /verif && realpath "$2")") || { echo "PATCH FAILED"; exit 3; }
 else
   python3 - "$S/$1" "$2" "$3" <<'PY'
 import re,sys
